@@ -58,6 +58,8 @@ def none_reading(p):
 
 def reading(obj, name):
     try:
+        if "[" in name:
+            return ("v", eval("o." + name, {"o": obj}))  # noqa: S307 - e.g. adjustments[2]
         return ("v", getattr(obj, name))
     except Exception as e:  # noqa
         return ("raises", type(e).__name__)
@@ -72,6 +74,19 @@ def close(got, want, quantum):
         return abs(got - want) <= quantum
     except TypeError:
         return False
+
+
+def refetch(ctx, prs, label, path, name, rd, case):
+    """the value lives in the document, not in the proxy object: a newly obtained proxy reads the same"""
+    try:
+        fresh = eval(path, {"prs": prs})  # noqa: S307 - paths are produced by harness/oplab.py
+    except Exception:  # noqa
+        return
+    if fresh is None:
+        return
+    again = reading(fresh, name)
+    if again != rd:
+        ctx.fail(f"refetch:{name.split('[')[0]}", f"{label} {path}.{name}: reads {rd[1]!r} on the object it was assigned through, {again[1]!r} on a newly obtained one", case)
 
 
 def build_deck():
@@ -135,7 +150,10 @@ def exercise(ctx, prs, label, rng, budget):
             for p in plist:
                 todo.append((p, obj, path))
     rng.shuffle(todo)
-    for p, obj, path in todo[:budget]:
+    # text setters replace paragraphs and runs (objects obtained earlier then describe detached elements): they come last
+    todo = todo[:budget]
+    todo = [t for t in todo if t[0].name != "text"] + [t for t in todo if t[0].name == "text"]
+    for p, obj, path in todo:
         sibs = [q.name for q in by_kind[p.kind] if q.name != p.name and q.name not in COUPLED.get((p.kind, p.name), set())
                 and not (p.name in ("text",) or q.name in ("text",))]
         r = rng.random()
@@ -193,6 +211,8 @@ def exercise(ctx, prs, label, rng, budget):
                     vn = ":" + v.name if hasattr(v, "name") and hasattr(v, "value") else ""
                     ctx.fail(f"{p.kind}.{p.name}:read-back{vn}", f"{label} {path}.{p.name} = {v!r}: reads back {got!r}" + ("" if v is None else f" (quantum {p.quantum})"), case)
                 recorded[(path, p.name)] = after_self
+                if p.name != "text":
+                    refetch(ctx, prs, label, path, p.name, after_self, case)
         after = {n: reading(obj, n) for n in sibs}
         for n in sibs:
             if after[n] != before[n]:
@@ -204,6 +224,29 @@ def exercise(ctx, prs, label, rng, budget):
                 if (path, n) in recorded:
                     recorded[(path, n)] = after[n]
                 break
+    # adjustments: an indexed read/write collection (negative values and values above 1 are documented as valid)
+    for obj, path in world.objs.get("autoshape", []):
+        try:
+            n = len(obj.adjustments)
+        except Exception:  # noqa
+            continue
+        for i in range(n):
+            if rng.random() < 0.5:
+                continue
+            v = rng.choice([0.0, 1.0, 0.5, -0.25, -0.70833, 2.5, round(rng.uniform(-1, 2), 5)])
+            others = [obj.adjustments[j] for j in range(n)]
+            obj.adjustments[i] = v
+            got = obj.adjustments[i]
+            ctx.case(key=("adjustments", v < 0, v > 1))
+            ctx.count("assign-adjustment")
+            case = {"deck": label, "object": path, "property": f"adjustments[{i}]", "value": v}
+            if abs(got - v) > 1e-5:
+                ctx.fail("autoshape.adjustments:read-back", f"{label} {path}.adjustments[{i}] = {v}: reads back {got}", case)
+            for j in range(n):
+                if j != i and obj.adjustments[j] != others[j]:
+                    ctx.fail("independence:adjustments", f"{label} {path}: assigning adjustments[{i}] changed adjustments[{j}] from {others[j]} to {obj.adjustments[j]}", case)
+            recorded[(path, f"adjustments[{i}]")] = ("v", got)
+            refetch(ctx, prs, label, path, f"adjustments[{i}]", ("v", got), case)
     return recorded
 
 
